@@ -37,6 +37,7 @@ type c02Case struct {
 	prices, maxUnits, target fees.Dimensions
 	cap                      int
 	parentHeight             uint64
+	minEmptyGap              int64 // rules.MinEmptyBlockGap; the parent is always 5 s older than the build
 	parent                   map[int]uint64
 	specs                    []hTxSpec
 	dups                     []bool
@@ -48,7 +49,15 @@ type hMempool struct {
 	*mempool.Mempool[*chain.Transaction]
 	mu       sync.Mutex
 	restored []*chain.Transaction
+	started  bool
 	done     chan struct{}
+}
+
+func (m *hMempool) StartStreaming(ctx context.Context) {
+	m.mu.Lock()
+	m.started = true
+	m.mu.Unlock()
+	m.Mempool.StartStreaming(ctx)
 }
 
 func (m *hMempool) FinishStreaming(ctx context.Context, r []*chain.Transaction) int {
@@ -78,18 +87,20 @@ func TestVerifC02(t *testing.T) {
 			continue
 		}
 		switch {
-		case f[0] == "build" && len(f) == 7:
+		case f[0] == "build" && len(f) == 8:
 			p, e1 := parseDims(f[2])
 			m, e2 := parseDims(f[3])
 			tg, e3 := parseDims(f[4])
 			cp, e4 := strconv.Atoi(f[5])
 			ph, e5 := strconv.ParseUint(f[6], 10, 32)
-			if n, e0 := strconv.Atoi(f[1]); e0 != nil || n != hNumKeys || e1 != nil || e2 != nil || e3 != nil || e4 != nil || e5 != nil || cp < 0 {
+			mg, e6 := strconv.ParseInt(f[7], 10, 64)
+			// the parent is 5000 ms old: gaps within 2 s of that would make the outcome depend on scheduling delays
+			if n, e0 := strconv.Atoi(f[1]); e0 != nil || n != hNumKeys || e1 != nil || e2 != nil || e3 != nil || e4 != nil || e5 != nil || e6 != nil || cp < 0 || mg < 100 || (mg > 3000 && mg < 30000) {
 				r.Emit(l, "bad-op")
 				c = nil
 				continue
 			}
-			c = &c02Case{prices: p, maxUnits: m, target: tg, cap: cp, parentHeight: ph, parent: map[int]uint64{}}
+			c = &c02Case{prices: p, maxUnits: m, target: tg, cap: cp, parentHeight: ph, minEmptyGap: mg, parent: map[int]uint64{}}
 			r.Emit(l, "ok")
 		case f[0] == "parent" && c != nil && len(c.specs) == 0:
 			vals, err := parseParentLine(f[1:])
@@ -158,6 +169,7 @@ func c02Run(metrics *chain.ChainMetrics, c *c02Case, cores int, r *verifh.Run) (
 	now := time.Now().UnixMilli()
 	parentTs := now - 5000
 	rules := hRules(c.prices, c.maxUnits, c.target)
+	rules.MinEmptyBlockGap = c.minEmptyGap
 	db, err := newParentDB(c.parent, c.parentHeight, parentTs)
 	if err != nil {
 		return "err-db", "-", nil
@@ -222,10 +234,15 @@ func c02Run(metrics *chain.ChainMetrics, c *c02Case, cores int, r *verifh.Run) (
 		return "hang", "-", [][2]string{{"build-hang", "BuildBlock did not return within 20s"}}
 	}
 	setAuthHook(nil)
-	select {
-	case <-mp.done:
-	case <-time.After(10 * time.Second):
-		viol = append(viol, [2]string{"build-hang", "FinishStreaming was not called within 10s of BuildBlock returning"})
+	mp.mu.Lock()
+	streaming := mp.started
+	mp.mu.Unlock()
+	if streaming { // a build that fails before StartStreaming has nothing to restore
+		select {
+		case <-mp.done:
+		case <-time.After(10 * time.Second):
+			viol = append(viol, [2]string{"build-hang", "FinishStreaming was not called within 10s of BuildBlock returning"})
+		}
 	}
 	orderStr := "-"
 	if len(order) > 0 {
@@ -262,7 +279,9 @@ func c02Run(metrics *chain.ChainMetrics, c *c02Case, cores int, r *verifh.Run) (
 		}
 		vch := make(chan vres, 1)
 		go func() {
-			o, err := c01Processor(metrics, rules, vc, vc).Execute(ctx, db, chain.NewExecutionBlock(parsed), true)
+			p, stop := c01Processor(metrics, rules, vc, vc)
+			o, err := p.Execute(ctx, db, chain.NewExecutionBlock(parsed), true)
+			stop()
 			vch <- vres{o, err}
 		}()
 		var v vres
@@ -321,7 +340,11 @@ func c02Run(metrics *chain.ChainMetrics, c *c02Case, cores int, r *verifh.Run) (
 // ---------------------------------------------------------------- generator
 
 func c02EmitCase(lines *[]string, prices, maxUnits, target string, cap int, ph int, parent string, txs []*hGenTx, dups []bool, par []int) {
-	*lines = append(*lines, fmt.Sprintf("build %d %s %s %s %d %d", hNumKeys, prices, maxUnits, target, cap, ph), parent)
+	c02EmitCaseGap(lines, prices, maxUnits, target, cap, ph, 750, parent, txs, dups, par)
+}
+
+func c02EmitCaseGap(lines *[]string, prices, maxUnits, target string, cap int, ph int, gap int, parent string, txs []*hGenTx, dups []bool, par []int) {
+	*lines = append(*lines, fmt.Sprintf("build %d %s %s %s %d %d %d", hNumKeys, prices, maxUnits, target, cap, ph, gap), parent)
 	for i, g := range txs {
 		d := "0"
 		if dups[i] {
@@ -360,6 +383,16 @@ func c02Generate(r *verifh.Run) []string {
 	}, []bool{false, false, true, false, false}, []int{4})
 	// zero prices + sponsor without balance entry: Execute errors, the build fails as a whole
 	c02EmitCase(&lines, "0,0,0,0,0", huge, huge, 1<<20, 1, "parent 9=5", []*hGenTx{mk(9, map[int]int{4: 7}, []string{"p4=1"}), mk(8, map[int]int{5: 7}, []string{"p5=1"})}, []bool{false, false}, nil)
+
+	// too early for an *empty* block (MinEmptyBlockGap 60 s, parent 5 s old): empty mempool; a mempool
+	// whose txs are all dropped during the build (expired, duplicate, underfunded, unit limit); one survivor
+	exp2 := mk(8, map[int]int{4: 7}, []string{"p4=1"})
+	exp2.pre = "0e"
+	c02EmitCaseGap(&lines, "100,100,100,100,100", huge, huge, 1<<20, 2, 60000, par, nil, nil, []int{4})
+	c02EmitCaseGap(&lines, "100,100,100,100,100", huge, huge, 1<<20, 2, 60000, "parent 8=1000000000000 9=10", []*hGenTx{
+		exp2, mk(8, map[int]int{5: 7}, []string{"p5=1"}), mk(9, map[int]int{6: 7}, []string{"p6=1"}), mk(10, map[int]int{7: 7}, []string{"p7=1"}),
+	}, []bool{false, true, false, false}, []int{4})
+	c02EmitCaseGap(&lines, "100,100,100,100,100", huge, huge, 1<<20, 2, 60000, par, []*hGenTx{exp2, mk(8, map[int]int{5: 7}, []string{"p5=1"})}, []bool{false, false}, []int{4})
 
 	priceChoices := []string{"100,100,100,100,100", "1,1,1,1,1", "1,2,3,4,5", "1000,1,1,1,1"}
 	for n := r.N(110, 2500); n > 0; n-- {
@@ -405,7 +438,37 @@ func c02Generate(r *verifh.Run) []string {
 		if rng.Chance(25) {
 			cap = rng.Intn(130*ntx + 100)
 		}
-		c02EmitCase(&lines, prices, maxUnits, target, cap, rng.Intn(1000), genParent(rng, rng.Chance(25)), txs, dups, []int{4, 16}[:1+rng.Intn(2)])
+		gap := 750
+		parentLine := genParent(rng, rng.Chance(25))
+		if rng.Chance(30) {
+			gap = 60000 // an empty block is not allowed yet
+			switch rng.Intn(3) {
+			case 0: // every tx is dropped or skipped before inclusion
+				if len(txs) > 8 {
+					txs, dups = txs[:8], dups[:8]
+				}
+				for i, g := range txs {
+					switch rng.Intn(4) {
+					case 0:
+						dups[i] = true
+					case 1:
+						g.sponsor, g.keys = hNumActionKeys, map[int]int{hNumActionKeys: 5} // sponsor 0 has no funds below
+						if len(g.acts) > 0 {
+							g.acts = [][]string{{}}
+						}
+					default:
+						g.pre = []string{"0e", "0f", "0c", "0m"}[rng.Intn(4)]
+					}
+				}
+				parentLine = fmt.Sprintf("parent %d=1000000000000 %d=1000000000000", hNumActionKeys+1, hNumActionKeys+2)
+				if rng.Bool() {
+					parentLine += fmt.Sprintf(" %d=%d", hNumActionKeys, rng.Intn(50))
+				}
+			case 1:
+				txs, dups = nil, nil
+			}
+		}
+		c02EmitCaseGap(&lines, prices, maxUnits, target, cap, rng.Intn(1000), gap, parentLine, txs, dups, []int{4, 16}[:1+rng.Intn(2)])
 	}
 	return lines
 }
